@@ -703,7 +703,7 @@ def problem_to_pzv_url(height, width, problem):
                 board[y + i][x] = "2"
             if y > 0:
                 ends.append((y - 1, x, 2))
-            if y + l < width:
+            if y + l < height:
                 ends.append((y + l, x, 1))
         for y2, x2, dir in ends:
             board[y2][x2] = "1"
